@@ -203,11 +203,18 @@ pub fn same_edit_sweep(rep: &mut Report, thorough: bool) {
     for d1 in 1..nd {
         for d2 in 0..nd {
             cases += 1;
-            let hist = vec![
+          for variant in 0..2 {
+            // variant 0: both replicas warm; variant 1: the first edit is committed, then replica 1 is
+            // reopened (cold caches) while replica 0 keeps its caches, then the second edit
+            let hist = if variant == 0 { vec![
                 Op::Upd(0, 0), Op::Commit(0, 0), Op::Sync(1, 0),
                 Op::Upd(0, d1), Op::Upd(0, d2), Op::Commit(0, 0),
                 Op::Upd(1, d1), Op::Upd(1, d2), Op::Commit(1, 1),
-            ];
+            ] } else { vec![
+                Op::Upd(0, 0), Op::Commit(0, 0), Op::Sync(1, 0),
+                Op::Upd(0, d1), Op::Commit(0, 0), Op::Read(0), Op::Upd(0, d2), Op::Commit(0, 0),
+                Op::Upd(1, d1), Op::Commit(1, 0), Op::Reopen(1), Op::Upd(1, d2), Op::Commit(1, 1),
+            ] };
             let mut w = World::build(2, m.clone(), &hist);
             if w.any_dead() {
                 continue;
@@ -227,6 +234,7 @@ pub fn same_edit_sweep(rep: &mut Report, thorough: bool) {
                     cx.violation("C19", "C19:same-edits-conflict-after-sync", &sc, &hist, json!({"replica": r, "view": v}));
                 }
             }
+          }
         }
     }
     rep.add_u64("evaluations", cases);
